@@ -6,3 +6,12 @@ from .data import *
 from .encrypt import *
 from .packet import *
 from .protocol import *
+
+# Star-imports also copy sub-module attributes of the imported packages, which can shadow this
+# package's own sub-modules; re-bind them to the modules the import system resolved.
+import sys as _sys
+
+data = _sys.modules[__name__ + ".data"]
+encrypt = _sys.modules[__name__ + ".encrypt"]
+packet = _sys.modules[__name__ + ".packet"]
+protocol = _sys.modules[__name__ + ".protocol"]
